@@ -655,7 +655,7 @@ int vd_utils_main(int argc, char **argv)
     for (k = 0; k < argc; k++) { if (!strcmp(argv[k], "--stats") && k + 1 < argc) stats = argv[k + 1]; if (!strcmp(argv[k], "--record") && k + 1 < argc) recf = fopen(argv[k + 1], "w"); }
     hooks.malloc_fn = al_malloc; hooks.free_fn = al_free; cJSON_InitHooks(&hooks);
     vd_install_handlers();
-    deep_util_run();
+    VD.curline = (char*)"# driver-built cases: deep documents through the utilities"; deep_util_run(); VD.curline = NULL;
     while ((len = getline(&line, &cap, stdin)) > 0 || (len < 0 && errno == EINTR && !feof(stdin) && (clearerr(stdin), 1))) {
         char *copy; jv *v; const char *kind;
         if (len <= 0) continue;
